@@ -105,6 +105,9 @@ func runScenario(name string, cfgSeed uint64, ch func(int, []int) int, grace tim
 		if len(cfg.writers) > 2 && rng.Bool() {
 			cfg.writers = cfg.writers[:2]
 		}
+		if rng.Chance(40) {
+			cfg.writers[rng.Intn(len(cfg.writers))].insert = true
+		}
 		return runSnap(cfg, ch, grace)
 	default:
 		n := 2 + rng.Intn(2)
